@@ -27,6 +27,7 @@ type Obligation struct {
 	Res    SolveResult
 	resultTerms []*T
 	vc          *fnVC
+	keep        map[int]bool // blocks whose facts are relevant (ancestors of the obligation's block)
 	// Trivial: decided without a solver (goal is syntactically true)
 	Trivial bool
 }
@@ -80,6 +81,7 @@ type fnVC struct {
 	safety  []string
 	curBlk  *ssa.BasicBlock
 	spawned []*ssa.Go
+	ancCache map[int]map[int]bool
 	ifaceNames []string
 	instrTag map[ssa.Instruction]string
 	curInstr ssa.Instruction
@@ -256,10 +258,13 @@ func (v *fnVC) oblige(kind, name string, props []string, clause string, pos stri
 	v.obls = append(v.obls, o)
 	o.values = v.modelTerms()
 	o.vc = v
+	if v.curBlk != nil {
+		o.keep = v.ancestors(v.curBlk.Index)
+	}
 	// after the check, the fact may be assumed
 	if t := tImp(reach, goal); t.S != "true" {
 		v.e.seq++
-		v.e.cmds = append(v.e.cmds, cmd{v.e.seq, "(assert " + t.S + ")", true})
+		v.e.cmds = append(v.e.cmds, cmd{v.e.seq, "(assert " + t.S + ")", true, v.e.curBlk})
 	}
 }
 
@@ -427,6 +432,7 @@ func (v *fnVC) exFor(cur, old *State, extra map[string]*T) *Ex {
 
 func (v *fnVC) block(b *ssa.BasicBlock) {
 	v.curBlk = b
+	v.e.curBlk = b.Index
 	e := v.e
 	var st *State
 	isHeader := v.loops[b.Index] != nil
@@ -469,6 +475,7 @@ func (v *fnVC) mergeStates(b *ssa.BasicBlock, preds []*ssa.BasicBlock, edges []*
 		return v.exit[preds[0].Index].clone()
 	}
 	st := v.e.newState()
+	st.blk = b.Index
 	for _, p := range preds {
 		st.parents = append(st.parents, v.exit[p.Index])
 	}
@@ -542,7 +549,12 @@ func (v *fnVC) loopHeader(b *ssa.BasicBlock, st *State) *State {
 	}
 	// havoc everything the body may write (all heaps: bodies are small; calls havoc anyway)
 	hst := pre.clone()
+	var bodyIdx []int
 	for idx := range li.body {
+		bodyIdx = append(bodyIdx, idx)
+	}
+	sort.Ints(bodyIdx)
+	for _, idx := range bodyIdx {
 		for _, in := range v.fn.Blocks[idx].Instrs {
 			v.havocWrites(in, hst, pre)
 		}
@@ -934,8 +946,8 @@ func (v *fnVC) havocCallWrites(in ssa.CallInstruction, st *State) {
 		}
 	}()
 	v.ct = saveCt
-	for name, t := range scratch.m {
-		st.set(name, v.e.freshConst("Hl$"+name, t.Sort))
+	for _, name := range sortedKeys(scratch.m) {
+		st.set(name, v.e.freshConst("Hl$"+name, scratch.m[name].Sort))
 	}
 	st.set(allocHeap, v.e.freshConst("Hl$next", sInt))
 }
@@ -961,4 +973,31 @@ func (v *fnVC) havocFuncBody(fn *ssa.Function, st *State) {
 	for _, a := range fn.AnonFuncs {
 		v.havocFuncBody(a, st)
 	}
+}
+
+// ancestors: blocks from which block idx is reachable in the back-edge-cut CFG (idx included).
+func (v *fnVC) ancestors(idx int) map[int]bool {
+	if v.ancCache == nil {
+		v.ancCache = map[int]map[int]bool{}
+	}
+	if a, ok := v.ancCache[idx]; ok {
+		return a
+	}
+	a := map[int]bool{idx: true}
+	stack := []int{idx}
+	for len(stack) > 0 {
+		n := stack[len(stack)-1]
+		stack = stack[:len(stack)-1]
+		for _, p := range v.fn.Blocks[n].Preds {
+			if v.back[[2]int{p.Index, n}] {
+				continue
+			}
+			if !a[p.Index] {
+				a[p.Index] = true
+				stack = append(stack, p.Index)
+			}
+		}
+	}
+	v.ancCache[idx] = a
+	return a
 }
